@@ -358,6 +358,9 @@ def check(run):
     run.snapshot()
     tr_preload(run)
     ok, failed, log = run.coq_props(["Properties_C20.v"])
+    dm = re.search(r'"C20DIAG ([^"]*)"', log or "")
+    if dm and dm.group(1) != "ok":
+        run.notes.append("skeleton: " + dm.group(1))
     m = re.search(r'"C20TRACE ?([^"]*)"', log or "")
     trace_model = m.group(1).split() if m else []
     exe = pl.build_ctl(run, san=False)
@@ -404,7 +407,7 @@ def check(run):
             nv += 1
     mism = [((full[i][0], full[i][1]), r["trace_mismatch"]) for i, r in enumerate(results) if r["trace_mismatch"]]
     if not ok and nv == 0:
-        run.violation("proof:%s" % failed, "proof", "proof obligation no longer checks: %s\n%s" % (failed, (log or "")[-1500:]), {"theorem": failed, "coq_log": (log or "")[-3000:]})
+        run.violation("proof:%s" % failed, "proof", "proof obligation no longer checks: %s | %s\n%s" % (failed, " ; ".join(n for n in run.notes if n.startswith("translator") or n.startswith("skeleton")) or "no translator note", (log or "")[-1500:]), {"theorem": failed, "coq_log": (log or "")[-3000:]})
     elif mism and nv == 0:
         (a, c), t = mism[0]
         run.violation("corr:trace", "correspondence", "system calls on the preload path differ from the compiled program's operations in %d of %d runs; first: %s observed %s expected %s"
